@@ -1,16 +1,17 @@
-SPECIFICATION SpecT
+SPECIFICATION Spec
 CONSTANTS
   ReqHandles <- QuickReqHandles
-  MaxLen = 1
-  N1 = {0}
-  N2 = {0}
-  S3 = {TRUE}
+  MaxLen = 3
+  N1 = {0, 2}
+  N2 = {1}
+  S3 = {TRUE, FALSE}
   StoreIds <- QuickStoreIds
   FRefs <- QuickFRefs
   FVers <- QuickFVers
   FLangs <- QuickFLangs
   FWidths <- QuickFWidths
   FLines <- QuickFLines
+INVARIANT LawH
 INVARIANT LawS
 INVARIANT LawT
 CONSTRAINT EmitCase
